@@ -45,6 +45,7 @@ POOL = {
     # further un-aliased objects for tables that may be in the statement already (self-joins; the same name in another schema): joined, they
     # are given the automatic alias <name>2, <name>3, ...
     "P3": ["tbl", "tp", None, None], "P4": ["tbl", "tp", None, None], "TS": ["tbl", "ts", None, None],
+    "X2": ["tbl", "tb", None, "tp2"],  # another table that already answers to the name the first self-join of tp would get
     "Q": ["sub", SUBP, "qq"], "QN": ["sub", SUBP, None], "QN2": ["sub", SUBP2, None], "UN": ["sub", SUBU, None],
     # QU: a query object an earlier statement used already: it carries the alias sq0 from there
     "QU": ["sub", SUBP2, None, {"preused": True}], "C": ["cte", "cc"], "F": ["tbl", "tf", None, None],
@@ -178,7 +179,7 @@ def program(draw):
     cls = draw(st.sampled_from(CTXS))
     b = Builder(draw, cls)
     kind = draw(st.sampled_from(["select", "select", "select", "insert", "insert_select", "upsert", "upsert_select", "update", "update_from", "update_join", "delete"]))
-    table_keys = ["P", "B", "A", "S", "SA", "P2", "D"]
+    table_keys = ["P", "B", "A", "S", "SA", "P2", "D", "X2"]
     steps = b.steps
     multi = False
     foreign = False
